@@ -62,23 +62,9 @@ def unchanged(t, old):
     return z3.And(t.flag.same(old['flag']), t.hist == old['hist'], z3.BoolVal(t.applied == old['applied']),
                   z3.BoolVal(t.tree_built == old['tree_built'] and t.stats_built == old['stats_built'] and t.finish_events == old['finish_events']))
 
-def run(ctx):
-    from pytableaux.errors import ProofTimeoutError, IllegalStateError
-    ctx.level = 'proof'
-    ctx.drop('type annotations', 'docstrings', '`with self.timers.<x>:` / `with StopWatch() as timer:` blocks are replaced by their bodies')
-    ctx.trust('Tableau.next() is an arbitrary choice (an entry or None) that does not change the lifecycle state (its contract is a C02/C09 obligation)',
-              'Rule.apply(target) together with the AFTER_RULE_APPLY listener appends exactly one history entry and sets STARTED (listener body interpreted in C16)',
-              'Tree.make / _compute_stats / _gen_models / emit: opaque, do not write flag or history; _gen_models may raise ProofTimeoutError',
-              'StopWatch.elapsed_ms() returns an arbitrary non-negative number (wall-clock time is not modelled)',
-              'Emsg.<Name>(...) builds the exception class listed in errors.py (read from the live enum)')
-    ctx.assume('enum.Flag algebra (|, &, ~, in) is bitwise on the 10 named bits',
-               'CPython semantics of the interpreted subset as encoded by pyvc/interp.py')
-    ctx.explanation = ('Tableau.step/finish/_check_timeout/_is_max_steps_exceeded/build_trunk, the verdict properties and the guarded setters are symbolically '
-                       'executed from source over a 10-bit symbolic flag word, symbolic |history|, optional-integer limits and an uninterpreted clock; z3 proves '
-                       'each lifecycle clause for every pre-state satisfying the constructor invariant.  Rule-collection locking is checked on the real objects '
-                       'for every mutator (finite enumeration) and the locking wrapper is interpreted.')
+def verdict_obligations(ctx):
+    "valid / invalid / completed / premature / finished interpreted from source over the symbolic flag word (also a premise of C01)"
     t0 = TableauObj('t')
-    H = hyps_for(t0)
     # ---------------- verdict properties
     try:
         res = {}
@@ -112,6 +98,25 @@ def run(ctx):
                            hyps=t0.wf(), where=res['completed'][0].where, meta=dict(clause='finished = completed xor premature; finished is the FINISHED bit')))
     except Outside as e:
         ctx.add_result(Result('C17.verdict.only-when-completed-with-argument', 'unknown', detail=f'outside subset: {e}'))
+
+def run(ctx):
+    from pytableaux.errors import ProofTimeoutError, IllegalStateError
+    ctx.level = 'proof'
+    ctx.drop('type annotations', 'docstrings', '`with self.timers.<x>:` / `with StopWatch() as timer:` blocks are replaced by their bodies')
+    ctx.trust('Tableau.next() is an arbitrary choice (an entry or None) that does not change the lifecycle state (its contract is a C02/C09 obligation)',
+              'Rule.apply(target) together with the AFTER_RULE_APPLY listener appends exactly one history entry and sets STARTED (listener body interpreted in C16)',
+              'Tree.make / _compute_stats / _gen_models / emit: opaque, do not write flag or history; _gen_models may raise ProofTimeoutError',
+              'StopWatch.elapsed_ms() returns an arbitrary non-negative number (wall-clock time is not modelled)',
+              'Emsg.<Name>(...) builds the exception class listed in errors.py (read from the live enum)')
+    ctx.assume('enum.Flag algebra (|, &, ~, in) is bitwise on the 10 named bits',
+               'CPython semantics of the interpreted subset as encoded by pyvc/interp.py')
+    ctx.explanation = ('Tableau.step/finish/_check_timeout/_is_max_steps_exceeded/build_trunk, the verdict properties and the guarded setters are symbolically '
+                       'executed from source over a 10-bit symbolic flag word, symbolic |history|, optional-integer limits and an uninterpreted clock; z3 proves '
+                       'each lifecycle clause for every pre-state satisfying the constructor invariant.  Rule-collection locking is checked on the real objects '
+                       'for every mutator (finite enumeration) and the locking wrapper is interpreted.')
+    t0 = TableauObj('t')
+    H = hyps_for(t0)
+    verdict_obligations(ctx)
     # ---------------- step
     try:
         fi, paths = run_method(ctx, 'step', pre=lambda t: inv_limits(t))
